@@ -574,6 +574,7 @@ type originOpts struct {
 	throughConvert bool // T(x) -> x
 	throughAssert  bool // x.(T) -> x
 	throughAppend  bool // append(x, ...) -> x (destination operand only)
+	local          bool // do not look through transparent helpers (parameters and calls stay roots)
 }
 
 var defaultOrigin = originOpts{throughSlice: true, throughConvert: true, throughAssert: true}
@@ -583,85 +584,148 @@ var defaultOrigin = originOpts{throughSlice: true, throughConvert: true, through
 // by closures). Roots are: parameters, calls, Extracts of calls, field/element
 // loads, globals, constants, allocations, etc.
 func (p *Program) origins(v ssa.Value, o originOpts) []ssa.Value {
-	seen := map[ssa.Value]bool{}
+	type key struct {
+		v   ssa.Value
+		ctx *originCtx
+	}
+	seen := map[key]bool{}
+	rootSeen := map[ssa.Value]bool{}
 	var roots []ssa.Value
-	var walk func(v ssa.Value)
-	walk = func(v ssa.Value) {
-		if v == nil || seen[v] {
-			return
-		}
-		seen[v] = true
-		switch x := v.(type) {
-		case *ssa.Phi:
-			for _, e := range x.Edges {
-				walk(e)
-			}
-		case *ssa.ChangeType:
-			walk(x.X)
-		case *ssa.ChangeInterface:
-			walk(x.X)
-		case *ssa.MakeInterface:
-			walk(x.X)
-		case *ssa.Convert:
-			if o.throughConvert {
-				walk(x.X)
-			} else {
-				roots = append(roots, v)
-			}
-		case *ssa.Slice:
-			if o.throughSlice {
-				walk(x.X)
-			} else {
-				roots = append(roots, v)
-			}
-		case *ssa.TypeAssert:
-			if o.throughAssert {
-				walk(x.X)
-			} else {
-				roots = append(roots, v)
-			}
-		case *ssa.Extract:
-			if ta, ok := x.Tuple.(*ssa.TypeAssert); ok && x.Index == 0 && o.throughAssert {
-				walk(ta.X)
-				return
-			}
-			roots = append(roots, v)
-		case *ssa.FreeVar:
-			if b := p.freeVarBinding(x); b != nil {
-				walk(b)
-			} else {
-				roots = append(roots, v)
-			}
-		case *ssa.UnOp:
-			if x.Op == token.MUL {
-				root := p.cellRoot(x.X)
-				if al, ok := root.(*ssa.Alloc); ok {
-					sts := p.reachingStores(al, x)
-					if len(sts) == 0 {
-						roots = append(roots, al) // zero value
-						return
-					}
-					for _, st := range sts {
-						walk(st.Val)
-					}
-					return
-				}
-			}
-			roots = append(roots, v)
-		case *ssa.Call:
-			if o.throughAppend {
-				if b, ok := x.Call.Value.(*ssa.Builtin); ok && b.Name() == "append" && len(x.Call.Args) > 0 {
-					walk(x.Call.Args[0])
-					return
-				}
-			}
-			roots = append(roots, v)
-		default:
+	root := func(v ssa.Value) {
+		if !rootSeen[v] {
+			rootSeen[v] = true
 			roots = append(roots, v)
 		}
 	}
-	walk(v)
+	var walk func(v ssa.Value, ctx *originCtx)
+	walk = func(v ssa.Value, ctx *originCtx) {
+		if v == nil || seen[key{v, ctx}] {
+			return
+		}
+		seen[key{v, ctx}] = true
+		switch x := v.(type) {
+		case *ssa.Phi:
+			for _, e := range x.Edges {
+				walk(e, ctx)
+			}
+		case *ssa.ChangeType:
+			walk(x.X, ctx)
+		case *ssa.ChangeInterface:
+			walk(x.X, ctx)
+		case *ssa.MakeInterface:
+			walk(x.X, ctx)
+		case *ssa.Convert:
+			if o.throughConvert {
+				walk(x.X, ctx)
+			} else {
+				root(v)
+			}
+		case *ssa.Slice:
+			if o.throughSlice {
+				walk(x.X, ctx)
+			} else {
+				root(v)
+			}
+		case *ssa.TypeAssert:
+			if o.throughAssert {
+				walk(x.X, ctx)
+			} else {
+				root(v)
+			}
+		case *ssa.Extract:
+			if ta, ok := x.Tuple.(*ssa.TypeAssert); ok && x.Index == 0 && o.throughAssert {
+				walk(ta.X, ctx)
+				return
+			}
+			if c, ok := x.Tuple.(*ssa.Call); ok && !o.local && ctx.depth() < 4 {
+				if callee := c.Call.StaticCallee(); callee != nil && !c.Call.IsInvoke() && p.isTransparent(callee) {
+					for _, rv := range returnsOf(callee, x.Index) {
+						walk(rv, &originCtx{site: c, up: ctx})
+					}
+					return
+				}
+			}
+			root(v)
+		case *ssa.FreeVar:
+			if b := p.freeVarBinding(x); b != nil {
+				walk(b, ctx)
+			} else {
+				root(v)
+			}
+		case *ssa.Parameter:
+			fn := x.Parent()
+			if o.local || !p.isTransparent(fn) {
+				root(v)
+				return
+			}
+			i := paramIndex(x)
+			if ctx != nil && ctx.site.Common().StaticCallee() == fn {
+				walk(argAt(ctx.site, i), ctx.up)
+				return
+			}
+			if ctx.depth() >= 4 {
+				root(v)
+				return
+			}
+			for _, s := range p.helpers().sites[fn] {
+				// entering a caller from below: keep a marker so that depth stays bounded
+				walk(argAt(s, i), &originCtx{site: s, up: ctx, upward: true})
+			}
+		case *ssa.UnOp:
+			if x.Op == token.MUL {
+				rt := p.cellRoot(x.X)
+				if al, ok := rt.(*ssa.Alloc); ok {
+					sts := p.reachingStores(al, x)
+					if len(sts) == 0 {
+						root(al) // zero value
+						return
+					}
+					for _, st := range sts {
+						walk(st.Val, ctx)
+					}
+					return
+				}
+			}
+			root(v)
+		case *ssa.Call:
+			if o.throughAppend {
+				if b, ok := x.Call.Value.(*ssa.Builtin); ok && b.Name() == "append" && len(x.Call.Args) > 0 {
+					walk(x.Call.Args[0], ctx)
+					return
+				}
+			}
+			if !o.local && ctx.depth() < 4 {
+				if callee := x.Call.StaticCallee(); callee != nil && !x.Call.IsInvoke() && p.isTransparent(callee) && callee.Signature.Results().Len() == 1 {
+					for _, rv := range returnsOf(callee, 0) {
+						walk(rv, &originCtx{site: x, up: ctx})
+					}
+					return
+				}
+			}
+			root(v)
+		default:
+			root(v)
+		}
+	}
+	walk(v, nil)
 	return roots
+}
+
+// originCtx is the calling context of an origins walk: the call sites entered
+// (downward, into a helper's returns) or left (upward, from a helper's
+// parameter to a caller's argument).
+type originCtx struct {
+	site   ssa.CallInstruction
+	up     *originCtx
+	upward bool
+}
+
+func (c *originCtx) depth() int {
+	n := 0
+	for ; c != nil; c = c.up {
+		n++
+	}
+	return n
 }
 
 // loadsField reports whether v is a load of the given field (through any base).
